@@ -10,8 +10,9 @@ import NurbsVerif.Driver.Predicates
 import NurbsVerif.Driver.Fitting
 import NurbsVerif.Driver.Exchange
 import NurbsVerif.Driver.Effects
+import NurbsVerif.Driver.Ders
 namespace Drv
-def handlers : List (List String → Option String) := [handleBasic, handleShape, handleDegree, handleLinalg, handleLayout, handleEquality, handleWeights, handleMesh, handlePredicates, handleFitting, handleExchange, handleEffects]
+def handlers : List (List String → Option String) := [handleBasic, handleShape, handleDegree, handleLinalg, handleLayout, handleEquality, handleWeights, handleMesh, handlePredicates, handleFitting, handleExchange, handleEffects, handleDers]
 def step (line : String) : String :=
   let toks := (line.trimAscii.toString.splitOn " ").filter (· ≠ "")
   match handlers.findSome? (fun h => h toks) with
